@@ -633,6 +633,11 @@ async fn exec(cx: &mut Cx<'_>, st: &Step) {
             tokio::time::sleep(ms(*d)).await;
         }
         Step::Park => std::future::pending::<()>().await,
+        Step::Stall(d) => {
+            let to = msched::now() + *d as u64;
+            ev(EvK::Advance { to });
+            msched::advance_to(to).await;
+        }
         Step::Busy(d) => {
             let t = std::time::Instant::now();
             while t.elapsed() < ms(*d) {
